@@ -4,6 +4,7 @@ use super::c05::cmd_text;
 use super::common::show_env;
 use crate::refsem::bv::{ArrV, Bv, Val};
 use crate::refsem::expr_eval::{self as r2, Env};
+use crate::refsem::smt::{self, Evaluator, Model, Op, SVal, Scope, Sort, Term};
 use crate::runner::*;
 use crate::util::{self, Rng};
 use crate::wl::expr::{ExprGen, GenCfg, judging_envs, lit_shape};
@@ -152,6 +153,109 @@ fn value_text(rng: &mut Rng) -> (String, Val) {
     (text, Val::A(arr))
 }
 
+
+// G5b: terms with let scopes (single and parallel bindings, shadowing of outer lets and of declared
+// constants, names used again after their scope has closed), judged by the R6 front end
+
+const LET_NAMES: &[&str] = &["a!1", "a!2", "x", "a", "b", "m", "tmp", "a b"];
+
+#[derive(Clone, Copy, PartialEq)]
+enum LS {
+    B,
+    A,
+}
+
+struct LetGen {
+    w: u32,
+    /// names that are declared constants: (name, sort)
+    declared: Vec<(&'static str, LS)>,
+    multi: bool,
+    escapes: bool,
+    used_escape: bool,
+    used_multi: bool,
+    shadowed_declared: bool,
+    reused_after_close: bool,
+    closed: Vec<String>,
+}
+
+impl LetGen {
+    fn visible(&self, scope: &[(String, LS)], name: &str) -> Option<LS> {
+        scope.iter().rev().find(|(n, _)| n == name).map(|x| x.1).or_else(|| self.declared.iter().find(|(n, _)| *n == name).map(|x| x.1))
+    }
+    fn lit(&self, rng: &mut Rng, ls: LS) -> Term {
+        match ls {
+            LS::B => Term::Lit(SVal::Bv(Bv::new(self.w, lit_shape(rng, self.w)))),
+            LS::A => Term::App(Op::ConstArray(Sort::Arr(Box::new(Sort::Bv(2)), Box::new(Sort::Bv(self.w)))), vec![self.lit(rng, LS::B)]),
+        }
+    }
+    fn term(&mut self, rng: &mut Rng, ls: LS, depth: u32, scope: &mut Vec<(String, LS)>) -> Term {
+        let leaf = depth == 0 || rng.chance(1, 5);
+        if leaf {
+            // a visible name of the right sort, or a literal
+            let mut names: Vec<String> = LET_NAMES.iter().filter(|n| self.visible(scope, n) == Some(ls)).map(|n| n.to_string()).collect();
+            if self.escapes && !self.used_escape && rng.chance(1, 6) {
+                // a name that is bound nowhere at this point
+                if let Some(n) = LET_NAMES.iter().find(|n| self.visible(scope, n).is_none()) {
+                    self.used_escape = true;
+                    return Term::Sym(n.to_string());
+                }
+            }
+            if !names.is_empty() && rng.chance(3, 4) {
+                let n = rng.pick(&mut names).clone();
+                if self.closed.contains(&n) && !scope.iter().any(|(k, _)| *k == n) {
+                    self.reused_after_close = true;
+                }
+                return Term::Sym(n);
+            }
+            return self.lit(rng, ls);
+        }
+        if rng.chance(2, 5) {
+            // a let: one binding, or several parallel ones (definitions see the outer scope only)
+            let nb = if self.multi && rng.chance(1, 3) { rng.range(2, 3) as usize } else { 1 };
+            let mut binds: Vec<(String, LS, Term)> = vec![];
+            for _ in 0..nb {
+                let name = rng.pick(LET_NAMES).to_string();
+                if binds.iter().any(|b| b.0 == name) {
+                    continue;
+                }
+                let bs = if rng.chance(1, 3) { LS::A } else { LS::B };
+                let def = self.term(rng, bs, depth - 1, scope);
+                binds.push((name, bs, def));
+            }
+            if binds.len() > 1 {
+                self.used_multi = true;
+            }
+            for (n, s, _) in &binds {
+                if self.declared.iter().any(|d| d.0 == n) {
+                    self.shadowed_declared = true;
+                }
+                scope.push((n.clone(), *s));
+            }
+            let body = self.term(rng, ls, depth - 1, scope);
+            for (n, _, _) in &binds {
+                scope.pop();
+                self.closed.push(n.clone());
+            }
+            return Term::Let(binds.into_iter().map(|(n, _, d)| (n, d)).collect(), Box::new(body));
+        }
+        match ls {
+            LS::B => match rng.below(7) {
+                0 => Term::App(Op::BvNot, vec![self.term(rng, LS::B, depth - 1, scope)]),
+                1 => Term::App(Op::Select, vec![self.term(rng, LS::A, depth - 1, scope), Term::Lit(SVal::Bv(Bv::from_u64(2, rng.below(4))))]),
+                2 => {
+                    let c = Term::App(Op::Eq, vec![self.term(rng, LS::B, depth - 1, scope), self.term(rng, LS::B, depth - 1, scope)]);
+                    Term::App(Op::Ite, vec![c, self.term(rng, LS::B, depth - 1, scope), self.term(rng, LS::B, depth - 1, scope)])
+                }
+                k => {
+                    let op = [Op::BvAdd, Op::BvAnd, Op::BvOr, Op::BvXor][(k % 4) as usize].clone();
+                    Term::App(op, vec![self.term(rng, LS::B, depth - 1, scope), self.term(rng, LS::B, depth - 1, scope)])
+                }
+            },
+            LS::A => Term::App(Op::Store, vec![self.term(rng, LS::A, depth - 1, scope), Term::Lit(SVal::Bv(Bv::from_u64(2, rng.below(4)))), self.term(rng, LS::B, depth - 1, scope)]),
+        }
+    }
+}
+
 /// truncated / unbalanced variants
 fn variants(rng: &mut Rng, text: &str, n: usize) -> Vec<(String, &'static str)> {
     let mut out = vec![];
@@ -275,6 +379,116 @@ impl C14 {
         }
     }
 
+    fn lets(&self, sh: &mut Shard, rng: &mut Rng) {
+        let w = *rng.pick(&[2u32, 3, 8, 33]);
+        let mut g = LetGen {
+            w,
+            declared: vec![("a", LS::B), ("b", LS::B), ("m", LS::A)],
+            multi: rng.chance(1, 4),
+            escapes: rng.chance(1, 8),
+            used_escape: false,
+            used_multi: false,
+            shadowed_declared: false,
+            reused_after_close: false,
+            closed: vec![],
+        };
+        let ls = if rng.chance(1, 4) { LS::A } else { LS::B };
+        let depth = rng.range(2, 5) as u32;
+        let term = g.term(rng, ls, depth, &mut vec![]);
+        let mut text = smt::show_term(&term);
+        if rng.chance(1, 6) {
+            text = text.replace(") ", ")\n  ");
+        }
+        if !text.contains("let") {
+            return;
+        }
+        sh.count("let_terms", 1);
+        // the judge: strict front end with the same declarations
+        let mut scope = Scope::new();
+        let bsort = Sort::Bv(w);
+        let asort = Sort::Arr(Box::new(Sort::Bv(2)), Box::new(Sort::Bv(w)));
+        scope.declare("a", bsort.clone()).unwrap();
+        scope.declare("b", bsort.clone()).unwrap();
+        scope.declare("m", asort.clone()).unwrap();
+        let verdict: Result<Term, String> = smt::parse_sexprs(&text).map_err(|e| format!("{e:?}")).and_then(|sx| if sx.len() == 1 { smt::parse_term(&sx[0]) } else { Err("not one term".into()) }).and_then(|t| scope.sort_of(&t).map(|_| t));
+        let mut ctx = Context::default();
+        let mut st: St = Default::default();
+        let (sa, sb, sm) = (ctx.bv_symbol("a", w), ctx.bv_symbol("b", w), ctx.array_symbol("m", 2, w));
+        st.insert("a".into(), sa);
+        st.insert("b".into(), sb);
+        st.insert("m".into(), sm);
+        let got = util::catch(|| parse_expr(&mut ctx, &st, text.as_bytes()));
+        let shape = if g.used_multi { "parallel-bindings" } else { "single-bindings" };
+        match (verdict, got) {
+            (_, Err(p)) => {
+                sh.violation(format!("C14|let|panic|{}|{shape}", p.loc()), format!("reading a term with let scopes panicked at {}: {}\ntext: {text}", p.loc(), util::trunc(&p.msg, 200)), json!({"text": text}));
+            }
+            (Err(why), Ok(Err(_))) => {
+                sh.count("let_terms_ill_scoped_and_rejected", 1);
+                let _ = why;
+            }
+            (Err(why), Ok(Ok(e))) => {
+                sh.violation(format!("C14|let|accepted-ill-scoped|{shape}"), format!("the term is not well-formed ({why}) but was read as {}\ntext: {text}", util::trunc(&r2::render(&ctx, e), 400)), json!({"text": text}));
+            }
+            (Ok(_), Ok(Err(err))) => {
+                sh.violation(format!("C14|let|rejected|{shape}"), format!("a well-formed term with let scopes was rejected: {err}\ntext: {text}"), json!({"text": text}));
+            }
+            (Ok(t), Ok(Ok(e))) => {
+                if g.used_multi {
+                    sh.count("let_terms_with_parallel_bindings", 1);
+                }
+                if g.shadowed_declared {
+                    sh.count("let_terms_shadowing_a_declared_constant", 1);
+                }
+                if g.reused_after_close {
+                    sh.count("let_terms_reusing_a_name_after_its_scope_closed", 1);
+                }
+                if let Err(m) = r2::deep_type_check(&ctx, e) {
+                    sh.violation(format!("C14|let|ill-typed|{shape}"), format!("result is ill-typed: {m}\ntext: {text}"), json!({"text": text}));
+                    return;
+                }
+                for _ in 0..4 {
+                    let va = Bv::new(w, lit_shape(rng, w));
+                    let vb = Bv::new(w, lit_shape(rng, w));
+                    let mut vm = ArrV::constant(2, &Bv::new(w, lit_shape(rng, w)));
+                    for _ in 0..rng.below(4) {
+                        vm = vm.store(&Bv::from_u64(2, rng.below(4)), &Bv::new(w, lit_shape(rng, w)));
+                    }
+                    let mut model: Model = Default::default();
+                    model.insert("a".into(), SVal::Bv(va.clone()));
+                    model.insert("b".into(), SVal::Bv(vb.clone()));
+                    model.insert("m".into(), super::c05::sval_of_val(&Val::A(vm.clone()), Type::Array(patronus::expr::ArrayType { index_width: 2, data_width: w })));
+                    let want = Evaluator::new(&scope, &model).eval(&t).expect("reference evaluation of a well-sorted term");
+                    let mut env = Env::default();
+                    env.insert(sa, Val::B(va));
+                    env.insert(sb, Val::B(vb));
+                    env.insert(sm, Val::A(vm));
+                    sh.count("evaluations", 1);
+                    let have = match r2::eval(&ctx, &env, e) {
+                        Ok(v) => v,
+                        Err(er) => {
+                            sh.violation(format!("C14|let|free-name|{shape}"), format!("the result mentions something that is neither a, b nor m: {}\ntext: {text}\nread as: {}", er.0, util::trunc(&r2::render(&ctx, e), 400)), json!({"text": text}));
+                            return;
+                        }
+                    };
+                    let have_s = super::c05::sval_of_val(&have, e.get_type(&ctx));
+                    if !have_s.same(&want) {
+                        sh.violation(
+                            format!("C14|let|wrong-value|{shape}"),
+                            format!("the text denotes {} but was read as an expression with value {} under {}\ntext: {text}\nread as: {}", want.show(), have_s.show(), show_env(&ctx, &env), util::trunc(&r2::render(&ctx, e), 400)),
+                            json!({"text": text}),
+                        );
+                        return;
+                    }
+                }
+                sh.distinct(util::hash_str(&text));
+                if sh.want_sample() && text.len() > 40 {
+                    sh.sample(json!({"let_term": text}));
+                }
+            }
+        }
+    }
+
     fn values(&self, sh: &mut Shard, rng: &mut Rng) {
         let (text, want) = value_text(rng);
         let mut ctx = Context::default();
@@ -338,13 +552,13 @@ impl Check for C14 {
         "C14"
     }
     fn work(&self, tier: Tier) -> Vec<WorkItem> {
-        vec![WorkItem { mode: "roundtrip", count: tier.pick(60_000, 3_000_000) }, WorkItem { mode: "values", count: tier.pick(150_000, 6_000_000) }]
+        vec![WorkItem { mode: "roundtrip", count: tier.pick(60_000, 3_000_000) }, WorkItem { mode: "values", count: tier.pick(150_000, 6_000_000) }, WorkItem { mode: "lets", count: tier.pick(150_000, 6_000_000) }]
     }
     fn evaluations_counter(&self) -> &'static str {
         "commands_read_back"
     }
     fn rule(&self) -> String {
-        "mode roundtrip: G1 expressions (as in C05, incl. 1-bit/Bool mixtures, arrays, quoted names); every command the writer emits for them (declare-const per symbol, get-value, define-fun, assert, check-sat-assuming with 1 and 2 terms, plus set-logic/set-option/set-info/push/pop/check-sat/get-unsat-assumptions/exit) is read back with parse_command, the bare term with parse_expr, and the whole script with read_command; kinds, symbols and operands must agree, expressions up to equivalence under the reference evaluator (all assignments <= 10 symbol bits, else 8). mode values: G5 model-value texts in solver spellings (#b/#x, true/false, store chains over (as const ..), let-bound sub-terms a!k, Bool-indexed and Bool-valued arrays, line breaks) with their denotation; parse_expr must give exactly that value; 6 truncated/unbalanced variants each (proper prefixes, one parenthesis deleted or inserted) must give an error or, when the edit leaves a well-formed text, not a wrong value - and never panic. distinct_nontrivial = distinct value texts read correctly.".into()
+        "mode roundtrip: G1 expressions (as in C05, incl. 1-bit/Bool mixtures, arrays, quoted names); every command the writer emits for them (declare-const per symbol, get-value, define-fun, assert, check-sat-assuming with 1 and 2 terms, plus set-logic/set-option/set-info/push/pop/check-sat/get-unsat-assumptions/exit) is read back with parse_command, the bare term with parse_expr, and the whole script with read_command; kinds, symbols and operands must agree, expressions up to equivalence under the reference evaluator (all assignments <= 10 symbol bits, else 8). mode values: G5 model-value texts in solver spellings (#b/#x, true/false, store chains over (as const ..), let-bound sub-terms a!k, Bool-indexed and Bool-valued arrays, line breaks) with their denotation; parse_expr must give exactly that value; 6 truncated/unbalanced variants each (proper prefixes, one parenthesis deleted or inserted) must give an error or, when the edit leaves a well-formed text, not a wrong value - and never panic. mode lets: G5b terms over declared constants a, b (bit-vectors of width 2/3/8/33) and m (array) with nested let scopes: single and parallel binding lists, bindings of arrays and bit-vectors, binder names that shadow outer lets or the declared constants a/b/m (also with another sort), quoted binder names, names used again after their scope has closed (then denoting the declared constant, or nothing at all); the R6 front end decides well-formedness and gives the value under 4 random models: a well-formed term must be read as an expression with that value, an ill-scoped one must be an error, never a panic. distinct_nontrivial = distinct value and let texts read correctly.".into()
     }
     fn assumptions(&self) -> Vec<String> {
         vec!["the get-value response reader is exercised through parse_expr here (same term parser) and through SolverContext::get_value against the reference solver in C02/C03".into()]
@@ -353,6 +567,10 @@ impl Check for C14 {
         let mut rng = Rng::new(sh.case_seed());
         if case.mode == "values" {
             self.values(sh, &mut rng);
+            return;
+        }
+        if case.mode == "lets" {
+            self.lets(sh, &mut rng);
             return;
         }
         let mut ctx = Context::default();
@@ -376,5 +594,10 @@ impl Check for C14 {
         m.floor("value texts", m.c("value_texts"), tier.pick(150_000, 6_000_000));
         m.floor("malformed variants", m.c("malformed_variants"), tier.pick(500_000, 20_000_000));
         m.floor("value texts with let", m.c("value_texts_with_let"), tier.pick(10_000, 400_000));
+        m.floor("let terms read and judged", m.c("let_terms"), tier.pick(40_000, 1_500_000));
+        m.floor("let terms with parallel bindings", m.c("let_terms_with_parallel_bindings"), tier.pick(4_000, 150_000));
+        m.floor("let terms shadowing a declared constant", m.c("let_terms_shadowing_a_declared_constant"), tier.pick(20_000, 800_000));
+        m.floor("let terms reusing a name after its scope closed", m.c("let_terms_reusing_a_name_after_its_scope_closed"), tier.pick(10_000, 400_000));
+        m.floor("ill-scoped let terms rejected", m.c("let_terms_ill_scoped_and_rejected"), tier.pick(2_000, 80_000));
     }
 }
